@@ -668,3 +668,20 @@ fn colors_named_other_case() {
 
 // @verif property=C11,C03,C06,C01 tier=quick timeout=900 mem=16 bounds="[Colours] 'sliderborder: $a,$b,$c' next to an existing 'SliderBorder' (names are case-sensitive: a new entry)"
 oracle_proof!(c11_col_named_other_case, 24, colors_named_other_case());
+
+/// AudioFilename: the trimmed text after the first colon with Windows separators standardised;
+/// every other field untouched (concrete lines, arbitrary numeric state).
+fn general_audio_filename(line: &'static str, want: &'static str) {
+    let (mut st, pre) = any_general();
+    let res = General::parse_general(&mut st, line);
+    assert!(res.is_ok());
+    assert!(st.audio_file.as_bytes() == want.as_bytes(), "audio file name differs from the format rule");
+    assert!(general_matches(&st, &pre), "a file-name record changed another field");
+    kani::cover!(true, "reached");
+    core::mem::forget(st);
+}
+
+// @verif property=C11,C03,C01 tier=quick timeout=600 mem=12 bounds="[General] concrete 'AudioFilename: audio\\sub\\a.mp3' from an arbitrary numeric state (separators standardised)"
+oracle_proof!(c11_gen_audio_backslash, 48, general_audio_filename("AudioFilename: audio\\sub\\a.mp3", "audio/sub/a.mp3"));
+// @verif property=C11,C03,C01 tier=quick timeout=600 mem=12 bounds="[General] concrete 'AudioFilename:a:b.mp3 // c' (colon inside the value kept, comment cut)"
+oracle_proof!(c11_gen_audio_colon_comment, 48, general_audio_filename("AudioFilename:a:b.mp3 // c", "a:b.mp3"));
